@@ -24,6 +24,17 @@ BYFILE = {'in_toto/verifylib.go': ['C01', 'C05'], 'in_toto/model.go': ['C12', 'C
           'in_toto/certconstraint.go': ['C07'], 'in_toto/hashlib.go': ['C13']}
 
 
+# the checks whose generators drive the function end to end come first (the pins only say "this function changed")
+BYFUNC = {'InTotoVerify': ['C05', 'C08', 'C09'], 'InTotoVerifyWithDirectory': ['C05', 'C08', 'C09'], 'GetSummaryLink': ['C05', 'C08'],
+          'VerifyLinkSignatureThesholds': ['C02', 'C05'], 'LoadLinksForLayout': ['C02', 'C05'], 'RunInspections': ['C09'],
+          'VerifyArtifacts': ['C03', 'C09'], 'verifyMatchRule': ['C03', 'C09'], 'ReduceStepsMetadata': ['C05'], 'VerifySublayouts': ['C08'],
+          'SubstituteParameters': ['C18'], 'VerifyLayoutExpiration': ['C06'], 'VerifyLayoutSignatures': ['C01'], 'LoadLayoutCertificates': ['C01', 'C07'],
+          'Step.CheckCertConstraints': ['C07', 'C02'], 'RunCommand': ['C14'], 'recordArtifacts': ['C13'], 'RecordArtifacts': ['C13'],
+          'InTotoRun': ['C13', 'C14', 'C20'], 'InTotoRecordStart': ['C13', 'C20'], 'InTotoRecordStop': ['C13', 'C20'],
+          'Envelope.Dump': ['C04', 'C12'], 'Metablock.Dump': ['C04', 'C12'], 'Metablock.Load': ['C12'], 'LoadMetadata': ['C12'], 'readMetadataFile': ['C12'],
+          'encodeJSONSortedKeys': ['C11', 'C04'], 'Set.Filter': ['C03'], 'UnpackRule': ['C03'], 'match': ['C17', 'C03']}
+
+
 def sh(cmd, cwd=None, timeout=3000, env=None):
     try:
         p = subprocess.run(cmd, cwd=cwd, env=env or ENV, shell=isinstance(cmd, str), stdout=subprocess.PIPE, stderr=subprocess.STDOUT, timeout=timeout)
@@ -70,10 +81,10 @@ def run_one(args):
         res['failing_tests'] = bad[:3]
         return res
     key = mut['file'] + ':' + mut['func']
-    checks = list(dict.fromkeys(pinmap.get(key, []) + ([] if mut['file'].startswith('cmd/') else BYFILE.get(mut['file'], []))))
+    checks = list(dict.fromkeys(BYFUNC.get(mut['func'], []) + pinmap.get(key, []) + ([] if mut['file'].startswith('cmd/') else BYFILE.get(mut['file'], []))))
     if mut['file'].startswith('cmd/'):
         checks = ['C20']
-    checks = checks[:2]
+    checks = checks[:3]
     res['checks'] = {}
     best = 'not-noticed'
     for c in checks:
